@@ -21,7 +21,7 @@ Definition applicable (t : timeouts) (p : N) (e : entry) : list Z :=
     (if rst_seen e then [t_rst t] else []) ++
     (if (e_dsr e && fins_seen_dsr e) || fins_seen e then [t_fins t] else []) ++
     (if established e || e_dsr e
-     then (if e_rstts e then [120 * sec] else []) ++ [t_est t]
+     then (if rst_ts_set e then [120 * sec] else []) ++ [t_est t]
      else [t_syn t])
   else if N.eqb p 1 || N.eqb p 58 then [t_icmp t]
   else if N.eqb p 17 then [t_udp t]
@@ -34,6 +34,50 @@ Definition spec_timeout (t : timeouts) (p : N) (e : entry) : Z :=
 
 Definition idle_past_timeout (t : timeouts) (now : Z) (p : N) (e : entry) : bool :=
   now - e_ls e >? spec_timeout t p e.
+
+(* The table rule by rule (the "reason" entryDone reports).  A rule applies to a protocol/state; it fires when the idle
+   time  now - last_seen  exceeds its timeout.
+     1 TCP, RST seen on a leg                         TCPResetSeen
+     2 TCP, FINs seen (both legs; one leg under DSR)  TCPFinsSeen
+     3 TCP, established or DSR, a RST time recorded   fixed 120 s
+     4 TCP, established or DSR                        TCPEstablished
+     5 TCP, neither established nor DSR               TCPSynSent
+     6 ICMP / ICMPv6                                  ICMPTimeout
+     7 UDP                                            UDPTimeout
+     8 any other protocol                             GenericTimeout *)
+Definition rule_applies (p : N) (e : entry) (r : N) : bool :=
+  let tcp := N.eqb p 6 in
+  let icmp := N.eqb p 1 || N.eqb p 58 in
+  let udp := N.eqb p 17 in
+  match r with
+  | 1%N => tcp && rst_seen e
+  | 2%N => tcp && ((e_dsr e && fins_seen_dsr e) || fins_seen e)
+  | 3%N => tcp && (established e || e_dsr e) && rst_ts_set e
+  | 4%N => tcp && (established e || e_dsr e)
+  | 5%N => tcp && negb (established e || e_dsr e)
+  | 6%N => negb tcp && icmp
+  | 7%N => negb tcp && negb icmp && udp
+  | 8%N => negb tcp && negb icmp && negb udp
+  | _ => false
+  end.
+Definition rule_timeout (t : timeouts) (r : N) : Z :=
+  match r with
+  | 1%N => t_rst t | 2%N => t_fins t | 3%N => 120 * sec | 4%N => t_est t | 5%N => t_syn t
+  | 6%N => t_icmp t | 7%N => t_udp t | 8%N => t_gen t | _ => 0
+  end.
+Definition rules : list N := [1; 2; 3; 4; 5; 6; 7; 8]%N.
+(* rule r fires; for EntryFinished the FINs-seen rule fires at once *)
+Definition rule_fires (t : timeouts) (now : Z) (p : N) (e : entry) (fin : bool) (r : N) : bool :=
+  rule_applies p e r && ((fin && N.eqb r 2) || (now - e_ls e >? rule_timeout t r)).
+Definition spec_done (t : timeouts) (now : Z) (p : N) (e : entry) (fin : bool) : bool :=
+  existsb (rule_fires t now p e fin) rules.
+(* oracle for one observed answer of EntryExpired / EntryFinished: a reported reason must be a rule that fires;
+   "not done" is only right if no rule fires *)
+Definition ok_answer (t : timeouts) (now : Z) (p : N) (e : entry) (fin : bool) (o : option N) : bool :=
+  match o with
+  | Some r => rule_fires t now p e fin r
+  | None => negb (spec_done t now p e fin)
+  end.
 
 Definition tm_nonneg (t : timeouts) : Prop :=
   0 <= t_syn t /\ 0 <= t_est t /\ 0 <= t_fins t /\ 0 <= t_rst t /\ 0 <= t_udp t /\ 0 <= t_gen t /\ 0 <= t_icmp t.
@@ -167,6 +211,44 @@ Fixpoint run_segs (t : conf) (s : state) (segs : list (list step)) : list (list 
 Fixpoint all2 {A B} (f : A -> B -> bool) (a : list A) (b : list B) : bool :=
   match a, b with [], [] => true | x :: a', y :: b' => f x y && all2 f a' b' | _, _ => false end.
 
+Definition tm_eqb (a b : timeouts) : bool :=
+  Z.eqb (t_syn a) (t_syn b) && Z.eqb (t_est a) (t_est b) && Z.eqb (t_fins a) (t_fins b) && Z.eqb (t_rst a) (t_rst b) &&
+  Z.eqb (t_udp a) (t_udp b) && Z.eqb (t_gen a) (t_gen b) && Z.eqb (t_icmp a) (t_icmp b).
+Definition tm_nonnegb (t : timeouts) : bool :=
+  (0 <=? t_syn t) && (0 <=? t_est t) && (0 <=? t_fins t) && (0 <=? t_rst t) && (0 <=? t_udp t) && (0 <=? t_gen t) && (0 <=? t_icmp t).
+Definition optN_eqb (a b : option N) : bool :=
+  match a, b with Some x, Some y => N.eqb x y | None, None => true | _, _ => false end.
+
 Definition check_case (c : case) : bool * bool :=
   (all2 qmap_eqb (run_segs (mkConf (c_tm c) (c_fix c)) (init (c_ct0 c) (c_k0 c) (c_g0 c)) (c_segs c)) (c_obs c),
    ok_segs (c_tm c) (c_ct0 c, c_k0 c) true (c_segs c) (c_obs c)).
+
+(* the three kinds of correspondence case *)
+Inductive anycase :=
+| AScan (c : case)                                   (* scans of the real Scanner, see above *)
+| ADone (t : timeouts) (now : Z) (p : N) (e : entry) (* direct calls: EntryExpired and EntryFinished, with the reasons *)
+        (oe : option N) (ofin : option N)
+| ACfg (cfg : list (N * option Z)) (got : timeouts). (* timeouts.GetTimeouts on a configuration map *)
+
+(* a configuration is in the domain of the spec if each field is set at most once with a non-negative duration;
+   then the table must carry exactly the configured values and the documented defaults elsewhere *)
+Definition ok_cfg (cfg : list (N * option Z)) (got : timeouts) : bool :=
+  let d := default_timeouts in
+  let f (i : N) (g dv : Z) :=
+    match filter (fun kv => N.eqb (fst kv) i) cfg with
+    | [] => Z.eqb g dv
+    | [(_, Some v)] => Z.eqb g v
+    | [(_, None)] => Z.eqb g dv
+    | _ => true
+    end in
+  f 0%N (t_syn got) (t_syn d) && f 1%N (t_est got) (t_est d) && f 2%N (t_fins got) (t_fins d) && f 3%N (t_rst got) (t_rst d) &&
+  f 4%N (t_udp got) (t_udp d) && f 5%N (t_gen got) (t_gen d) && f 6%N (t_icmp got) (t_icmp d).
+
+Definition check_any (a : anycase) : bool * bool :=
+  match a with
+  | AScan c => check_case c
+  | ADone t now p e oe ofin =>
+      (optN_eqb (entry_done t now p e false) oe && optN_eqb (entry_done t now p e true) ofin,
+       ok_answer t now p e false oe && ok_answer t now p e true ofin)
+  | ACfg cfg got => (tm_eqb (get_timeouts cfg) got, ok_cfg cfg got)
+  end.
